@@ -1773,6 +1773,9 @@ func (ls *LState) ObjLen(v1 LValue) int {
 /* binary operations {{{ */
 
 func (ls *LState) Concat(values ...LValue) string {
+	if len(values) == 0 {
+		return ""
+	}
 	top := ls.reg.Top()
 	for _, value := range values {
 		ls.reg.Push(value)
